@@ -8,6 +8,8 @@ import (
 	"go/types"
 	"sort"
 	"strings"
+
+	"golang.org/x/tools/go/ssa"
 )
 
 // E6 — exhaustiveness of sibling tables over the repository's constant groups.
@@ -174,15 +176,24 @@ func ruleE6(p *Program, r *Reporter) {
 		if g == nil {
 			continue
 		}
-		fd, pk, err := p.funcDecl(s.pkg, s.recv, s.name)
+		fd, _, err := p.funcDecl(s.pkg, s.recv, s.name)
 		if err != nil {
 			r.Anchor(id, "site "+s.pkg+"."+s.recv+"."+s.name)
 			continue
 		}
-		ment := mentionedConsts(pk.TypesInfo, fd.Body, g)
+		// the site is the function together with the same-package helpers it calls
+		// and the package-level lookup tables it consults
+		ment := map[*types.Const]token.Pos{}
+		for _, nd := range p.siteNodes(s.pkg, s.recv, s.name) {
+			for c, pos := range mentionedConsts(p.Pkgs[s.pkg].TypesInfo, nd, g) {
+				if _, ok := ment[c]; !ok {
+					ment[c] = pos
+				}
+			}
+		}
 		for _, w := range s.with {
-			if fd2, pk2, err := p.funcDecl(w[0], w[1], w[2]); err == nil {
-				for c, pos := range mentionedConsts(pk2.TypesInfo, fd2.Body, g) {
+			for _, nd := range p.siteNodes(w[0], w[1], w[2]) {
+				for c, pos := range mentionedConsts(p.Pkgs[w[0]].TypesInfo, nd, g) {
 					if _, ok := ment[c]; !ok {
 						ment[c] = pos
 					}
@@ -238,4 +249,68 @@ func discoverExhaust(p *Program) {
 			}
 		}
 	}
+}
+
+// siteNodes: syntax of the function, of the same-package functions it reaches by
+// static calls, and of the package-level map/slice literals those bodies refer to.
+func (p *Program) siteNodes(pkgrel, recv, name string) []ast.Node {
+	root := p.Fn(pkgrel, recv, name)
+	if root == nil {
+		return nil
+	}
+	pk := p.Pkgs[pkgrel]
+	info := pk.TypesInfo
+	// the function and its private helpers (unexported functions called only from it)
+	var bodies []ast.Node
+	var fns []*ssa.Function
+	for fn := range p.PrivateRegion(root) {
+		fns = append(fns, fn)
+	}
+	sort.Slice(fns, func(i, j int) bool { return fns[i].Pos() < fns[j].Pos() })
+	for _, fn := range fns {
+		if fn.Parent() != nil {
+			continue
+		}
+		if b, _ := bodyOf(fn); b != nil {
+			bodies = append(bodies, b)
+		}
+	}
+	out := append([]ast.Node{}, bodies...)
+	seen := map[types.Object]bool{}
+	for _, b := range bodies {
+		ast.Inspect(b, func(n ast.Node) bool {
+			id, ok := n.(*ast.Ident)
+			if !ok {
+				return true
+			}
+			v, ok := info.Uses[id].(*types.Var)
+			if !ok || v.Parent() != pk.Types.Scope() || seen[v] {
+				return true
+			}
+			seen[v] = true
+			switch v.Type().Underlying().(type) {
+			case *types.Map, *types.Slice, *types.Array:
+			default:
+				return true
+			}
+			for _, f := range pk.Syntax {
+				for _, d := range f.Decls {
+					gd, ok := d.(*ast.GenDecl)
+					if !ok || gd.Tok != token.VAR {
+						continue
+					}
+					for _, sp := range gd.Specs {
+						vs := sp.(*ast.ValueSpec)
+						for i, nm := range vs.Names {
+							if info.Defs[nm] == v && i < len(vs.Values) {
+								out = append(out, vs.Values[i])
+							}
+						}
+					}
+				}
+			}
+			return true
+		})
+	}
+	return out
 }
